@@ -25,7 +25,7 @@ class FoldDict(dict):
     reference implementation (the class itself adds no behaviour)."""
 
 
-SCALAR_KEYS = ["name", "type", "group", "status", "data", "x"]
+SCALAR_KEYS = ["name", "type", "group", "status", "data", "x", "2024", "0"]  # (digit-only keys are ordinary keys)
 DICT_KEYS = ["web", "metadata", "legend"]
 LIST_KEYS = ["layers", "classes", "styles", "items"]
 WORDS = ["road", "roads", "Road", "rail", "ail", "", "a", "b", "water", "wat"]
@@ -111,6 +111,7 @@ class C18(core.Check):
     thorough_budget_s = 1500.0
     chunk = 200
     run_timeout_s = 20.0
+    isolate = True
     rule = (
         "one evaluation = one seeded history: a generated nested document (plain or Mapfile dicts, depth <= 4) "
         "followed by 1-8 operations, each a type-compatible patch applied with mappyfile.update (scalar "
